@@ -11,7 +11,7 @@ TEXT = {
  "C05": ("Lean theorems: the end is a fixpoint of the cursor for every continuation; `completed` is never reset and a pull that starts once it is set receives nothing, under every schedule.", "§7 C05"),
  "C06": ("Lean theorems: after the skip store every continuation delivers nothing (known size); wrapper: skip sets completed, afterwards starting pulls receive nothing; safety invariants hold in histories with skips.", "§7 C06"),
  "C07": ("Lean theorems: mutual exclusion of the critical section and of next() for all fused scripts (panics included), programs with skips, schedules; calls happen in position order. Happens-before: Lean theorem hb_chain (vector-clock ghost state over SC interleavings, C11 release/acquire through `yielded`) instantiated with the orderings extracted from the current source on every run; partial: SC interleavings only (stale-read executions are not modelled), synchronisation through `reserved`/`completed` ignored (conservative).", "§7 C07"),
- "C08": ("Lean theorems: consumed ∪ dropped-by-chunk = handed out; handed out ∪ dropped-by-Drop = 0..len exactly once for every program and schedule (no skip/get/wrap); open findings D5, D12 as kernel-checked witnesses.", "§7 C08"),
+ "C08": ("Lean theorems: consumed ∪ dropped-by-chunk = handed out; handed out ∪ dropped-by-Drop = 0..len exactly once for every program and schedule (no skip/get/wrap); skip_to_end drops the rest (fix for D5); open finding D12 as a kernel-checked witness.", "§7 C08"),
  "C09": ("Lean theorems: known-size wait-freedom (a called op completes with its next own step in every configuration; steps never touch other threads); wrapper: deadlock freedom in every reachable configuration (panics and skips included): some working thread is never waiting, spin iterations are harmless; the ticket holder enters without waiting. The last step to termination under weak fairness (a decreasing measure) is not proved; the stuck detector covers it on traces.", "§7 C09"),
  "C10": ("Lean theorems: delivered ++ remainder = 0..len for every program and schedule; remainder empty after skip and always in range.", "§7 C10"),
  "C11": ("Lean theorems: reported length = what continuations can deliver, never increases, zero is definitive (known size); wrapper: completed ⇒ 0, exact hint ⇒ len − reserved, monotone.", "§7 C11"),
@@ -58,7 +58,7 @@ def main():
             "guard": "orx_concurrent_iter_verif",
             "enable": "RUSTFLAGS=--cfg orx_concurrent_iter_verif (set in /verif/harness/.cargo/config.toml; the harness has a path dependency on /repo)",
             "baseline_off_cmd": "/verif/tools/baseline_off.sh",
-            "source_commits": ["e36bb9e"],
+            "source_commits": ["e36bb9e", "97cc831"],
             "add_only": False,
         },
         "engines": [
@@ -67,7 +67,7 @@ def main():
         ],
         "checks": checks,
         "not_applicable": na,
-        "notes": "add_only=false: the hook commit rewrites one `use` line in src/iter/implementors/iter.rs (splitting AtomicBool out of a nested import so that it can be cfg-switched); everything else is added. Fix commits in /repo: 5ddb4aa 6f79ce2 9f68dad 708ebf7 db8941c 56ba366 6a969f3 97b3907 2327103 (see known_findings.json).",
+        "notes": "add_only=false: the hook commit rewrites one `use` line in src/iter/implementors/iter.rs (splitting AtomicBool out of a nested import so that it can be cfg-switched); everything else is added. Fix commits in /repo: 5ddb4aa 6f79ce2 9f68dad 708ebf7 db8941c 56ba366 6a969f3 97b3907 2327103 3804907 edc5d6d 3d988c2 (see known_findings.json).",
     }
     json.dump(m, open(os.path.join(V, "MANIFEST.json"), "w"), indent=1)
     print("checks:", len(checks), "n/a:", [x["property_id"] for x in na])
